@@ -55,6 +55,10 @@ def cases(tier, seed):
     return out
 
 
+def heavy(case):
+    return case[0] == "tlc" or F.n_ops(case[1]) >= 5
+
+
 def run_case(case) -> Res:
     res = Res()
     if case[0] == "tlc":
